@@ -101,6 +101,7 @@ static void gen_history(Rng &r, Plan &p, int mode, bool c04) {
     for (auto &op : p.ops.a) if (op.gets("op") == "script" && r.chance(0.4)) { Json &at = op.at("attempts"); at.a[0].set("die", true); break; }
   } else if (mode == 8) {  // bounce injection trouble: a fault inside the qmail-queue that qmail-send runs
     Fault f; f.actor = "qmail-queue"; f.call = r.pick(std::vector<CallId>{C_WRITE, C_FSYNC, C_LINK, C_OPEN, C_READ}); f.nth = (int)r.range(1, 12); f.kind = "error"; f.err = EIO;
+    if (r.chance(0.25)) { f.call = C_ANY; f.nth = (int)r.range(1, 30); f.kind = "kill"; }   // the injecting child is killed (a death by signal is not success)
     p.faults.push_back(f);
   } else if (mode == 9) {  // one failing call of the daemon on a named kind of queue file, early in that file's use (rare paths: pqadd, getinfo, markdone, addbounce, injectbounce, job_close)
     Fault f; f.actor = "qmail-send"; f.path = r.pick(std::vector<std::string>{"/bounce/", "/info/", "/local/", "/remote/", "/mess/", "/todo/"});
